@@ -86,8 +86,13 @@ def evaluate(mlr, work, arity):
                 groups = {}
                 for row in rows:
                     groups.setdefault(row[arity[op] - 1], []).append(row)
+                misc = []
                 for grp in groups.values():
-                    nxt += [(op, grp[i:i + SUB]) for i in range(0, len(grp), SUB)]
+                    if len(grp) < 8:
+                        misc += grp             # (random operands: no shared last operand)
+                    else:
+                        nxt += [(op, grp[i:i + SUB]) for i in range(0, len(grp), SUB)]
+                nxt += [(op, misc[i:i + SUB]) for i in range(0, len(misc), SUB)]
             else:
                 nxt += [(op, [row]) for row in rows]
         level = nxt
@@ -134,7 +139,7 @@ def run(tier, seed):
     for op in unary + binary + ternary:
         if op not in SPELL:
             raise vlib.Inconclusive("no spelling for operator %r" % op)
-    n_rand = 4500 if thorough else 60
+    n_rand = 12000 if thorough else 60
     rand_pairs = [(rand_operand(rnd), rand_operand(rnd)) for _ in range(n_rand)]
     # pairs around the 64-bit boundary of the product: a random a with the b for which a * b is next to 2^63 (sampling only)
     for _ in range(n_rand // 3):
